@@ -67,7 +67,12 @@ def run(tier):
     orc = chem.Oracle()
     r = C.rng(PROP)
     n = 40 if tier == "quick" else 400
-    vocab = ["Glc", "Man", "Gal", "Fuc", "Xyl", "GlcNAc", "GalNAc", "Neu5Ac", "Galf", "Araf", "Fruf", "Kdo", "Glc6S", "Gal3S", "Rha", "GlcN", "Man6P", "Glc3Ac", "Ribf", "Ara"]
+    vocab = ["Glc", "Man", "Gal", "Fuc", "Xyl", "GlcNAc", "GalNAc", "Neu5Ac", "Galf", "Araf", "Fruf", "Kdo", "Glc6S", "Gal3S", "Rha", "GlcN", "Man6P", "Glc3Ac", "Ribf", "Ara",
+             "Glc6Bz", "Gal3Bn", "Gal6Tr", "Man4Fmoc", "Glc2Pic"]
+    # residues that carry rings of their own (aromatic groups): ring / atom / bond counts of summary() must include them
+    T.RES.setdefault("Glc6Bz", (1, (2, 3, 4), (), "hexp-mod")); T.RES.setdefault("Gal3Bn", (1, (2, 4, 6), (), "hexp-mod"))
+    T.RES.setdefault("Gal6Tr", (1, (2, 3, 4), (), "hexp-mod")); T.RES.setdefault("Man4Fmoc", (1, (2, 3, 6), (), "hexp-mod"))
+    T.RES.setdefault("Glc2Pic", (1, (3, 4, 6), (), "hexp-mod"))
     for nm in ("Ribf", "Ara", "Araf", "Rha"):
         pass
     trees = [T.random_tree(r, r.randint(1, 8), names=vocab, p_branch=0.45) for _ in range(n)]
